@@ -266,7 +266,7 @@ def emit(t):
     w("From Coq Require Import List NArith String.")
     w("Import ListNotations.")
     w("Require Import UPV.Model.Kind.")
-    w("Open Scope string_scope.")
+    w("Local Open Scope string_scope.")
     w("")
     w("(* feature numbers: order of first appearance in chain( *FEATURES.values()); index in this list = number *)")
     w("Definition feature_names : list string :=\n  [ %s ]." % "\n  ; ".join(gstr(f) for f in t["order"]))
